@@ -2,6 +2,13 @@
 //! usage: trh <ops-file>      (prints the event log, one `case <n>` block per case)
 mod world;
 mod mw_bulkhead;
+mod mw_backoff;
+mod mw_reconnect;
+mod mw_hedge;
+mod mw_ratelimiter;
+mod mw_retry;
+mod mw_health;
+mod mw_cache;
 mod mw_circuit;
 
 use std::io::Write;
@@ -11,6 +18,13 @@ fn make(mw: &str, kv: &Kv) -> Option<Box<dyn Mw>> {
     match mw {
         "bulkhead" => Some(Box::new(mw_bulkhead::Adapter::new(kv))),
         "circuit" => Some(Box::new(mw_circuit::Adapter::new(kv))),
+        "cache" => Some(Box::new(mw_cache::Adapter::new(kv))),
+        "health" => Some(Box::new(mw_health::Adapter::new(kv))),
+        "retry" => Some(Box::new(mw_retry::Adapter::new(kv))),
+        "ratelimiter" => Some(Box::new(mw_ratelimiter::Adapter::new(kv))),
+        "hedge" => Some(Box::new(mw_hedge::Adapter::new(kv))),
+        "reconnect" => Some(Box::new(mw_reconnect::Adapter::new(kv))),
+        "backoff" => Some(Box::new(mw_backoff::Adapter::new(kv))),
         _ => None,
     }
 }
